@@ -18,8 +18,9 @@ from .ctx import Ctx, EngineError, PathInfeasible, PathLimit, use_ctx
 from .harness import FloatBackend, SymBackend
 
 TIER_OPTS = {
-    "quick": {"max_paths": 48, "rounds": 2, "maxdeg": 6, "timeout_ms": 20000},
-    "thorough": {"max_paths": 512, "rounds": 3, "maxdeg": 8, "timeout_ms": 60000},
+    # cross_check: number of z3 `unsat` verdicts per path that are re-decided by cvc5 on the exported query
+    "quick": {"max_paths": 48, "rounds": 2, "maxdeg": 6, "timeout_ms": 20000, "cross_check": 8},
+    "thorough": {"max_paths": 512, "rounds": 3, "maxdeg": 8, "timeout_ms": 60000, "cross_check": 60},
 }
 
 
@@ -50,7 +51,7 @@ def run_config(fn, params, cfg_key, seed=0, tier="quick", options=None, max_path
         opts.update(options)
     if max_paths:
         opts["max_paths"] = max_paths
-    D.STATS.update({"queries": 0, "solver_time": 0.0, "lemmas": 0, "unknown": 0})
+    D.STATS.update({"queries": 0, "solver_time": 0.0, "lemmas": 0, "unknown": 0, "cvc5_queries": 0, "cvc5_agree": 0, "cvc5_unknown": 0, "cvc5_time": 0.0})
     res = {
         "cfg": cfg_key,
         "params": _jsonable(params),
@@ -215,10 +216,13 @@ def run_config(fn, params, cfg_key, seed=0, tier="quick", options=None, max_path
     # ---- witness search for paths that were explored without a numeric witness and left obligations open
     unw = [e for e in res["open"] if not e.get("witnessed")]
     n_extra = opts.get("extra_witnesses", 6 if tier == "quick" else 16)
+    # candidate witnesses: the recorded corpus for this configuration first (seeds known to reach rare paths of the
+    # unchanged code, see tools/find_witness_seeds.py; hints only - a seed that reaches nothing costs one run), then fresh ones
+    cand = [int(x) for x in opts.get("witness_seeds", [])] + [seed + 104729 * i for i in range(1, n_extra + 1)]
     tried = 0
-    while unw and tried < n_extra and time.time() - t0 < budget * 1.2:
+    while unw and tried < len(cand) and time.time() - t0 < budget * 1.2:
+        seed_s = cand[tried]
         tried += 1
-        seed_s = seed + 104729 * tried
         FBs, ferrs = run_float(fn, params, cfg_key, seed_s, rtol=opts.get("float_rtol", 1e-8), tier=tier)
         if ferrs is not None:
             continue
@@ -279,6 +283,7 @@ def run_config(fn, params, cfg_key, seed=0, tier="quick", options=None, max_path
     res["queries"] = D.STATS["queries"]
     res["lemmas"] = D.STATS["lemmas"]
     res["unknown"] = D.STATS["unknown"]
+    res["cvc5"] = {"queries": D.STATS["cvc5_queries"], "agree": D.STATS["cvc5_agree"], "unknown": D.STATS["cvc5_unknown"], "time_s": round(D.STATS["cvc5_time"], 3)}
     res["wall_s"] = round(time.time() - t0, 3)
     res["inputs"] = {k: _jsonable(v) for k, v in FB.inputs.items()}
     return res
